@@ -20,6 +20,9 @@ func elemOfValue(v ssa.Value, isList func(ssa.Value) bool) bool {
 }
 
 func checkC04(p *Prog, r *Report) {
+	r.rule("C04.url-untouched (imported from C11.write-inventory): marshaling - URL.String included - writes nothing reachable from the URL, so the field selections a document is marshaled with are the ones the next document is marshaled with")
+	nUU := r.importRules(func(r2 *Report) { checkC11(p, r2) }, "C04.url-untouched", "C11.write-inventory")
+	r.floor("imported write-inventory obligations", nUU, 1)
 	r.rule("C04.get-api-only: where Wrapper.getField (or its search helper) matches the key against a json tag it also tests the field's api tag, so Get only reads fields that belong to the resource")
 	checkGetFieldAPIOnly(p, r, "C04")
 	r.rule("C04.check-complete: SoftResource.check, which Get runs before a soft resource's values are read, cannot return before its loops that zero-fill missing and drop stale fields (shared with C17)")
